@@ -1989,6 +1989,9 @@ class Model:
     @_invalidate_cache
     def update_data(self, name: str, data: pd.Series | pd.DataFrame) -> Self:
         """Update named data set."""
+        if name not in self._data:
+            msg = f"'{name}' not found in data"
+            raise KeyError(msg)
         self._data[name] = data
         return self
 
